@@ -308,7 +308,7 @@ Definition build_grammar (v : visited) : front_error + built :=
                      map (fun x => match snd x with Some k => nth k sprec no_prec | None => no_prec end) rs in
         let gi := {| gi_rules := rules; gi_nsyms := n; gi_nterm := nterm; gi_sprec := sprec; gi_rprec := rprec |} in
         match unproductive gi with
-        | _ :: _ as l => inl (FUnproductive l)
+        | (_ :: _) as l => inl (FUnproductive l)
         | [] => inr (mkBuilt syms gi (None :: map snd rs) v)
         end
       end
